@@ -37,7 +37,8 @@ import (
 func cliReadConfig(args []string) *cli.CliConfig
 
 type cfgMockProvConf struct {
-	Items int `config:"items"`
+	Items int    `config:"items"`
+	Av    string `config:"av"`
 }
 
 type cfgGunConf struct {
@@ -56,7 +57,7 @@ func cfgSetup() {
 	cfgSetupOnce.Do(func() {
 		cfgFs = afero.NewMemMapFs()
 		coreimport.Import(cfgFs)
-		register.Provider("c03mock", func(c cfgMockProvConf) core.Provider { return &prov{left: c.Items} })
+		register.Provider("c03mock", func(c cfgMockProvConf) core.Provider { return &prov{left: c.Items, av: c.Av} })
 		coreimport.RegisterCustomJSONProvider("c03json", func() core.Ammo { return &jsonAmmo{} })
 		register.Provider("c03num", provider.NewNumConf)
 		register.Aggregator("c03aggr", func() core.Aggregator { return &aggr{} })
@@ -223,8 +224,18 @@ func cfgYAML(m map[string]string, npools int) string {
 				}
 				fmt.Fprintf(&sb, "    ammo: {type: c03num, limit: %d}\n", lim)
 			}
+		case "dummy":
+			if n < 0 {
+				sb.WriteString("    ammo: {type: dummy}\n") // the registered built-in provider
+			} else {
+				fmt.Fprintf(&sb, "    ammo: {type: c03mock, items: %d, av: \"nil\"}\n", n)
+			}
 		default:
-			fmt.Fprintf(&sb, "    ammo: {type: c03mock, items: %d}\n", n)
+			if av := get("av"); av != "" {
+				fmt.Fprintf(&sb, "    ammo: {type: c03mock, items: %d, av: \"%s\"}\n", n, av)
+			} else {
+				fmt.Fprintf(&sb, "    ammo: {type: c03mock, items: %d}\n", n)
+			}
 		}
 		// ---- aggregator
 		if get("aggr") == "phout" {
@@ -343,8 +354,12 @@ func cfgPools(m map[string]string, npools int) ([]*poolRun, engine.Config, error
 		switch p := pc.Provider.(type) {
 		case *prov:
 			p.r = rec
+			rec.indistinct = p.av != ""
 		default:
 			ids = map[any]int{}
+			if _, isDummy := p.(provider.Dummy); isDummy {
+				rec.indistinct = true
+			}
 			pc.Provider = &wprov{r: rec, inner: p, ids: ids}
 		}
 		switch a := pc.Aggregator.(type) {
